@@ -20,6 +20,7 @@ THEOREMS = [
     'Pfst.C03.entry_insert', 'Pfst.C03.entry_append', 'Pfst.C03.entry_prepend', 'Pfst.C03.entry_put_forms',
     'Pfst.C03.entry_put_one',
     'Pfst.C03.view_heal', 'Pfst.C03.view_setitem', 'Pfst.C03.view_insert_agrees', 'Pfst.C03.view_item_index',
+    'Pfst.C03.view_name_index',
     'Pfst.C03.virt_dict', 'Pfst.C03.virt_compare', 'Pfst.C03.virt_mapping', 'Pfst.C03.virt_arguments_order',
     'Pfst.C03.virt_arguments_slot', 'Pfst.C03.virt_arglikes',
     'Pfst.C03.handlers_total', 'Pfst.C03.handlers_exempt_exact',
@@ -35,7 +36,17 @@ RULE = ('correspondence: (1) fixup_one_index / fixup_slice_indices exhaustively 
         'ClassDef / MatchClass / docstring bodies; (5) multi-step histories on ONE view object (whole-field and bounded views made '
         'by slicing): deterministic product of field lengths x windows x pairs of mutating operations (item/slice assignment '
         'incl. None, item/slice delete, replace, remove, insert, append, extend, prepend, prextend), then random longer '
-        'histories, compared with the model after every step. sweep: for every (kind, field) witness family (all list fields with a '
+        'histories, compared with the model after every step; (6) str NAME indexing: view._fixup_item_indices(name) on body / '
+        '_body views (whole and every sub-window, with/without docstring) of Module/FunctionDef/ClassDef/If/For holding defs, '
+        'classes and plain statements, deterministic product first, against Pfst.View.nameItem. sweep (deterministic products '
+        'run first): (P1) every family x fixed requests x every documented FORM of the code argument (str, list[str] lines '
+        'single- and multi-line, AST, FST) x one in {False, None, True for one element} x every entry point - harness '
+        'obligation: the expected result for list[str] lines is BY DEFINITION the result for "\\n".join(lines), for an AST/FST '
+        'slice container it is the result for the slice source; a single element given without slice syntax with one=False '
+        '(also when it is itself a delimited sequence [p, q] / (p, q) / {p, q}) is one element; (P2) every index FORM: int, '
+        'negative int, slice, "end", str NAME (def/class names, dotted names of nested defs, missing names) on whole views and '
+        'bounded sub-views with start > 0, on body / _body / orelse / finalbody with and without docstring, by get / at / set / '
+        'del; then the randomised sweep: for every (kind, field) witness family (all list fields with a '
         'slice handler, all virtual fields, AST-valued optional fields) and for corpus programs: random (start, stop) in '
         'raw forms (negative, out of range, "end"), 0-2 new elements, through every equivalent entry point on twin copies '
         'in several layouts; whole-tree ast.dump must equal CPython\'s parse of the source rendered from '
@@ -53,7 +64,8 @@ TRUSTED = [
     'ClassDef._bases (merge_arglikes), MatchClass._attrs, _body; the dispatch tables (extracted)',
     'not modelled (evaluated directly on the real code by the sweep instead): what each put-slice / put-one handler does to '
     'text and tree; fixup_field_body (only its default-field table is extracted); clip_src_loc; validate_put_arglike; '
-    'str name indexing of views; raw mode; options other than defaults',
+    'str name indexing resolving to NON-direct children (find_def scope walk; exercised by the sweep with dotted names only); '
+    'raw mode; options other than defaults',
     'sweep exclusions: Interactive.body, the special slice container kinds (_Assign_targets, _aliases, ...), identifier-'
     'valued optional fields, Compare insertions (an operator must be supplied; only operand replacement one-for-one and '
     'deletion are checked, operators are blanked before comparing), requests whose result would leave a field below its '
@@ -128,6 +140,10 @@ def correspondence(ctx):
     _compare(ctx, 'FSTView index arithmetic vs Pfst.View', cases, impl)
     cases, impl = c03_corr.view_history_cases(rng, 300 if q else 3000, full_product=not q)
     _compare(ctx, 'FSTView multi-step histories on one view object (bounded windows) vs Pfst.View', cases, impl)
+    cases, impl = c03_corr.name_cases(rng, 500 if q else 5000)
+    for i in impl:
+        ctx.tally('name_index', 'IndexError' if i == 'IndexError' else 'item')
+    _compare(ctx, 'FSTView str NAME indexing vs Pfst.View.nameItem', cases, impl)
     cases, impl = c03_corr.virt_cases(rng, 800 if q else 8000)
     for c in cases:
         ctx.tally('virtual_field', c['kind'])
@@ -148,8 +164,16 @@ def _report(ctx, recs):
 
 def _sweep(ctx, per_family, per_optional, n_progs, per_prog, full_product=False):
     nf = len(c03_edits.FAMILIES)
+    n0 = 0
+    # deterministic products first: code forms x one x entry points per family; index forms incl. str names on sub-views
+    for lst in pmap(c03_edits.run_form_product_case, list(range(nf))):
+        n0 += len(lst)
+        _report(ctx, lst)
+    for lst in pmap(c03_edits.run_name_case, c03_edits.name_items(full_product)):
+        n0 += len(lst)
+        _report(ctx, lst)
     res = pmap(c03_edits.run_family_case, [(i, ctx.rng.randrange(1 << 30), per_family) for i in range(nf)], chunksize=1)
-    n = 0
+    n = n0
     for lst in res:
         n += len(lst)
         _report(ctx, lst)
@@ -179,6 +203,7 @@ def _sweep(ctx, per_family, per_optional, n_progs, per_prog, full_product=False)
     ctx.notes['interleaved_arglike_requests_refused_for_ordering'] = ctx.notes.get('interleaved_arglike_requests_refused_for_ordering', 0) + refused
     rng = random.Random(ctx.rng.random())
     progs = corpus.programs(rng, n_progs, stdlib=n_progs // 15)
+    progs = progs + (corpus.hard_snippets() if hasattr(corpus, 'hard_snippets') else [])      # hard shapes, after the existing inputs
     res = pmap(c03_edits.run_corpus_case, [(p, ctx.rng.randrange(1 << 30), per_prog) for p in progs])
     for lst in res:
         n += len(lst)
@@ -208,6 +233,18 @@ def replay(ctx, data):
     from fst import FST
     import ast
     tag = w.get('tag') or ''
+    if w.get('name_args'):
+        ci, field, doc, shape = w['name_args']
+        for r in c03_edits.run_name_case((ci, field, doc, shape)):
+            if 'fail' in r and (r['a'], r['b'], r['new'], r['op']) == (w['a'], w['b'], w['new'], w['op']):
+                ctx.fail(f'C03|{r["sigop"]}|{r["fam"]}|{r["fail"]}', f'{r["op"]} on {r["fam"]}: {r["fail"]} {r.get("detail", "")}', r)
+        return
+    if w.get('product'):
+        fi = next(i for i, f in enumerate(c03_edits.FAMILIES) if f.name == w['fam'] and f.tag == tag)
+        for r in c03_edits.run_form_product_case(fi):
+            if 'fail' in r and (r['a'], r['b'], r['new'], r['op']) == (w['a'], w['b'], w['new'], w['op']):
+                ctx.fail(f'C03|{r["op"]}|{r["fam"]}|{r["fail"]}', f'{r["op"]} on {r["fam"]}: {r["fail"]} {r.get("detail", "")}', r)
+        return
     if tag == 'interleaved':
         r = c03_edits.replay_interleaved(w)
         if 'fail' in r:
